@@ -529,4 +529,71 @@ Section C17.
     unfold range_out in *. rewrite foldM_app, Hxa. cbn [bind]. rewrite foldM_app.
     cbn [repeat concat]. rewrite foldM_app, Hy0. cbn [bind]. rewrite Hun. cbn [bind]. exact Hout.
   Qed.
+
+  (* ---- exactly k further iterates ---- *)
+  Lemma loop_vals_length (mid : list layer) (li : layer) (xa : tensor) inskips :
+    forall k cur ys, loop_vals mid li xa inskips k cur = Ok ys -> length ys = k.
+  Proof.
+    induction k as [|k IH]; intros cur ys H; cbn [loop_vals] in H.
+    - injection H as <-. reflexivity.
+    - destruct (if shape_eqb (layer_inputs li) (tshape cur) then Ok cur else reshape cur (layer_inputs li))
+        as [c1|]; [|discriminate]. cbn [bind] in H.
+      destruct (if inskips then add_inplace c1 xa else Ok c1) as [c|]; [|discriminate]. cbn [bind] in H.
+      destruct (range_out mid c) as [y|]; [|discriminate]. cbn [bind] in H.
+      destruct (loop_vals mid li xa inskips k y) as [rest|] eqn:Er; [|discriminate]. cbn [bind] in H.
+      injection H as <-. cbn [length]. f_equal. exact (IH _ _ Er).
+  Qed.
+
+  (* the number of iterates in the value passed on is the configured count, whatever the accumulation *)
+  Theorem loop_forward_iterates_count (n : network N) (x out : tensor) a b k inskips :
+    n_connect n = [] -> n_loopbacks n = [(b, (a, k, inskips))] -> a <= b -> b < length (n_layers n) ->
+    predict n x = Ok out ->
+    let layers := n_layers n in
+    let mid := sub_layers layers a (b + 1) in
+    exists li xa y0 ys v,
+      nth_error layers a = Some li /\
+      range_out (firstn a layers) x = Ok xa /\
+      range_out mid xa = Ok y0 /\
+      loop_vals mid li xa inskips k y0 = Ok ys /\ length ys = k /\
+      loop_combine (n_loopacc n) y0 ys = Ok v /\
+      range_out (skipn (b + 1) layers) v = Ok out.
+  Proof.
+    intros Hc Hlb Hab Hb Hp layers mid.
+    destruct (loop_forward_spec _ _ Hc Hlb Hab Hb Hp) as (li & xa & y0 & ys & v & Hli & Hxa & Hy0 & Hys & Hv & Hout).
+    exists li, xa, y0, ys, v. repeat split; try assumption. exact (loop_vals_length _ _ _ _ _ _ Hys).
+  Qed.
+
+  Lemma skipn_skipn_add A (l : list A) : forall a m, skipn m (skipn a l) = skipn (a + m) l.
+  Proof.
+    induction l as [|h l IH]; intros a m.
+    - rewrite !skipn_nil. reflexivity.
+    - destruct a as [|a]; [reflexivity|]. cbn [skipn Nat.add]. apply IH.
+  Qed.
+
+  Lemma layers_split3 (layers : list layer) a b :
+    a <= b -> firstn a layers ++ sub_layers layers a (b + 1) ++ skipn (b + 1) layers = layers.
+  Proof.
+    intros Hab. unfold sub_layers.
+    replace (skipn (b + 1) layers) with (skipn (b + 1 - a) (skipn a layers)).
+    - rewrite firstn_skipn. apply firstn_skipn.
+    - rewrite skipn_skipn_add. f_equal. lia.
+  Qed.
+
+  (* a loop of zero iterations leaves the plain network (for every accumulation whose neutral case is
+     the first output itself: add, subtract, multiply, overwrite) *)
+  Theorem loop_zero_iterations_is_plain (n : network N) (x out : tensor) a b inskips :
+    n_connect n = [] -> n_loopbacks n = [(b, (a, 0, inskips))] -> n_loopacc n <> AccMean ->
+    a <= b -> b < length (n_layers n) ->
+    predict n x = Ok out ->
+    range_out (n_layers n) x = Ok out.
+  Proof.
+    intros Hc Hlb Hacc Hab Hb Hp.
+    destruct (loop_forward_spec _ _ Hc Hlb Hab Hb Hp) as (li & xa & y0 & ys & v & Hli & Hxa & Hy0 & Hys & Hv & Hout).
+    cbn [loop_vals] in Hys. injection Hys as <-.
+    assert (Hv' : v = y0).
+    { destruct (n_loopacc n); cbn [loop_combine foldM last_opt rev] in Hv;
+        try (injection Hv as <-; reflexivity). exfalso. apply Hacc. reflexivity. }
+    subst v. rewrite <- (layers_split3 (n_layers n) Hab) at 1.
+    unfold range_out in *. rewrite foldM_app, Hxa. cbn [bind]. rewrite foldM_app, Hy0. cbn [bind]. exact Hout.
+  Qed.
 End C17.
